@@ -1,8 +1,8 @@
 (* Pinned statements for C12: compiled on every check run. A statement weakened in Props/ fails here. *)
 From Coq Require Import String List.
 From TS Require Import Model.Str Model.Outcome Model.Unicode Model.Types Model.Parse Model.Lang.Common Model.Lang.Decl
-                       Model.Lang.Swift Model.Lang.Scala Spec.C12Spec Proofs.C12Obs.
-From TS Require Proofs.C12 Proofs.C12_Swift.
+                       Model.Lang.Swift Model.Lang.Scala Model.Lang.Go Model.Lang.Kotlin Spec.C12Spec Proofs.C12Obs.
+From TS Require Proofs.C12 Proofs.C12_Swift Proofs.C12_Go Proofs.C12_Kotlin.
 Import ListNotations.
 From TS Require Props.C12.
 
@@ -28,3 +28,24 @@ Goal c12_sc_known Proofs.C12_Scala.c12_sc_cfg0 Proofs.C12_Scala.c12_sc_witness =
   c12_good [lit "UShort"] [] = false.
 Proof. exact Props.C12.C12_scala_unsigned_depth_refuted. Qed.
 Print Assumptions Props.C12.C12_scala_unsigned_depth_refuted.
+Goal forall (uc : unicode) (cfg : go_config) (pd : parsed) (uses defs : list str),
+    c12_go_observe uc cfg pd = Ok (uses, defs) -> c12_go_dom cfg (items_of pd) = true ->
+    c12_good uses defs = true.
+Proof. exact Props.C12.C12_go. Qed.
+Print Assumptions Props.C12.C12_go.
+Goal forall (uc : unicode) (cfg : kt_config) (pd : parsed) (uses defs : list str),
+    c12_kt_observe uc cfg pd = Ok (uses, defs) -> c12_kt_known cfg pd = None ->
+    c12_good uses defs = true.
+Proof. exact Props.C12.C12_kotlin. Qed.
+Print Assumptions Props.C12.C12_kotlin.
+Goal c12_kt_known (Proofs.C12.c12_kt_cfg []) Proofs.C12.c12_nonvac_pd = Some "C12-kotlin-empty-package"%string /\
+  c12_kt_observe uc_exec (Proofs.C12.c12_kt_cfg []) Proofs.C12.c12_nonvac_pd = Ok ([lit "Serializable"], []) /\
+  c12_good [lit "Serializable"] [] = false.
+Proof. exact Props.C12.C12_kotlin_empty_package_refuted. Qed.
+Print Assumptions Props.C12.C12_kotlin_empty_package_refuted.
+Goal c12_kt_known (Proofs.C12.c12_kt_cfg (lit "com.p")) Proofs.C12.c12_kt_inline_pd = Some "C12-kotlin-jvminline"%string /\
+  c12_kt_observe uc_exec (Proofs.C12.c12_kt_cfg (lit "com.p")) Proofs.C12.c12_kt_inline_pd =
+    Ok ([lit "Serializable"; lit "JvmInline"], [lit "Serializable"; lit "SerialName"]) /\
+  c12_good [lit "Serializable"; lit "JvmInline"] [lit "Serializable"; lit "SerialName"] = false.
+Proof. exact Props.C12.C12_kotlin_jvminline_refuted. Qed.
+Print Assumptions Props.C12.C12_kotlin_jvminline_refuted.
